@@ -75,6 +75,17 @@ def register(claim):
           "Partial: conformance of r_expand / argument collection / rescanning is explored against gcc per run, not proved. Two known findings (no hide "
           "sets: re-expansion of an exempted token; white space inside # results).",
           "Lean 4 proof (# round trip) + differential correspondence + gcc -E oracle (exploration)", "DESIGN.md §5 C08")
+    claim("C04",
+          "Lean 4 theorems over a model that interprets the guard sequences of scan_function / scan_struct_type / scan_enum_type / scan_manifest / "
+          "scan_element / define_method, which are re-extracted from interrogateBuilder.cxx on every run and checked against the model's lists by the "
+          "kernel (c04_gates_mirror): a global function / method is exported iff it is declared in a local file, reaches the requested visibility "
+          "(public destructor and get_class_type() excepted), is not static(function)/deleted/template and its signature involves no protected type, "
+          "ignored type or rvalue reference (c04_function_iff, c04_method_iff); nothing below the requested visibility, deleted or with such a "
+          "signature ever passes (c04_no_leak); -promiscuous only adds exports (c04_promiscuous_monotone). The attributes the filters read are tied to "
+          "the real binary on generated six-file layouts with per-entity ground truth, for default and -promiscuous, incl. a scan that nothing from "
+          "-I/-S/beside-the-file headers appears.",
+          "Partial: truthfulness of file-source classification, visibility stamping and involves_* is tied by correspondence, not proved; .N command files are only modelled as attributes.",
+          "Lean 4 proof (filter semantics over regenerated guard lists) + differential correspondence on generated layouts", "DESIGN.md §5 C04")
     claim("C20",
           "Lean 4 theorems: guarded accessors return the neutral value off-range and the entry in range; every lookup answers from the current maps "
           "for every sequence of requests/lookups/queries (cache invariant by induction over operations) and is sound/absent/exact; the unique-name "
